@@ -427,10 +427,97 @@ pub fn check_noncanonical(c: &NcCase) -> Outcome {
     out
 }
 
+/// Valid frames written by the harness' own writer with features the library's encoder never emits (wasted bits,
+/// RICE2, escape-coded partitions, variable blocking): whatever the parser makes of them must count its bits right.
+pub fn foreign_strategy() -> BoxedStrategy<crate::oracle::forenc::ForeignFrame> {
+    use crate::oracle::forenc::{ForeignFrame, ForeignSub};
+    let sub = (0u8..=2, 0u8..=4, prop_oneof![3 => Just(0u8), 2 => 1u8..=3, 1 => 4u8..=7], 0u8..=1, 0u8..=3, proptest::collection::vec(prop_oneof![6 => 0u8..=14, 2 => 15u8..=30, 1 => Just(255u8)], 1..=4))
+        .prop_map(|(kind, order, wasted, method, part_order, params)| ForeignSub { kind, order, wasted, method, part_order, params });
+    (
+        prop_oneof![3 => (1usize..=40).prop_map(|k| k * 8), 2 => 1usize..=300, 1 => Just(4096usize)],
+        proptest::sample::select(vec![8usize, 12, 16, 20, 24]),
+        prop_oneof![Just(44100usize), Just(8000), 1usize..=65535],
+        prop_oneof![3 => 0u64..=200, 1 => any::<u64>().prop_map(|x| x & ((1 << 31) - 1))],
+        any::<bool>(),
+        proptest::collection::vec(sub, 1..=3),
+        any::<u64>(),
+    )
+        .prop_map(|(block, bps, rate, number, variable, mut subs, seed)| {
+            for s in subs.iter_mut() {
+                s.wasted = s.wasted.min(bps as u8 - 2);
+            }
+            ForeignFrame { block, bps, rate, number, variable, subs, seed }
+        })
+        .boxed()
+}
+
+pub fn check_foreign(ff: &crate::oracle::forenc::ForeignFrame) -> Outcome {
+    use crate::oracle::refdec::{decode_frame, FrameCtx};
+    let mut out = Outcome::new(fnv(serde_json::to_string(ff).unwrap_or_default().as_bytes()));
+    let Some(bytes) = ff.bytes() else {
+        out.class("foreign:not-encodable");
+        return out;
+    };
+    let want = ff.samples();
+    // self-test of the writer against the reference reader
+    let mut v = vec![];
+    match decode_frame(&bytes, 0, &FrameCtx { rate: Some(ff.rate as u32), bps: Some(ff.bps as u32), channels: Some(ff.subs.len()), max_block: None }, ff.number, &mut v) {
+        Ok((_ft, chans, end)) if end == bytes.len() && chans == want => {}
+        other => {
+            out.inconclusive = Some(format!("harness: foreign-frame writer self-test failed ({:?}); {ff:?}", other.map(|(_, _, e)| e)));
+            return out;
+        }
+    }
+    let feats = ff.foreign_features();
+    for f in &feats {
+        out.class(format!("foreign:{f}"));
+    }
+    let Ok(mut info) = flacenc::component::StreamInfo::new(ff.rate, ff.subs.len(), ff.bps) else {
+        out.class("foreign:stream-info-refused");
+        return out;
+    };
+    let _ = info.set_block_sizes(ff.block.clamp(16, 32767), ff.block.clamp(16, 32767));
+    type E<'a> = nom::error::Error<&'a [u8]>;
+    let parsed = catch(|| parser::frame::<E>(&info, true)(&bytes).map(|(rest, f)| (rest.len(), f)).map_err(|e| format!("{e:?}").chars().take(100).collect::<String>()));
+    match parsed {
+        Err(p) => out.class(format!("skipped:parser-panic(C16):{}", normalise(&p.sig()))),
+        Ok(Err(_)) => out.class(if feats.is_empty() { "foreign:plain-frame-rejected(not judged)" } else { "foreign:parser-rejects(not judged)" }),
+        Ok(Ok((rest, f))) => {
+            out.class(if feats.is_empty() { "foreign:plain-frame-parsed" } else { "foreign:parsed-with-foreign-features" });
+            out.nontrivial = true;
+            if rest != 0 {
+                return out;
+            }
+            if compare("parsed-foreign-frame", &f, true, &mut out) {
+                for c in 0..f.subframe_count() {
+                    if !compare("parsed-foreign-subframe", f.subframe(c).unwrap(), true, &mut out) {
+                        return out;
+                    }
+                    let r = match f.subframe(c).unwrap() {
+                        SubFrame::FixedLpc(x) => Some(x.residual()),
+                        SubFrame::Lpc(x) => Some(x.residual()),
+                        _ => None,
+                    };
+                    if let Some(r) = r {
+                        if !compare("parsed-foreign-residual", r, true, &mut out) {
+                            return out;
+                        }
+                    }
+                }
+                compare("parsed-foreign-header", f.header(), true, &mut out);
+                let mut pre = f.clone();
+                pre.precompute_bitstream();
+                compare("parsed-foreign-frame:precomputed", &pre, true, &mut out);
+            }
+        }
+    }
+    out
+}
+
 pub fn run(ctx: &Ctx) {
     ctx.rule(
         "every component of generated streams (general inputs, and loud 20/24-bit inputs with Rice parameters limited to 0..2 so that quotient sums reach 2^32) (stream, STREAMINFO, frames before/after precompute_bitstream, headers, subframes, residuals) and of the parsed stream: count_bits() == bits written to MemSink<u8> == MemSink<u64> == a counting sink, frames are whole bytes, parents equal the sum of their children; \
-         directly constructed residuals (partition order 0..=14, parameters 0..=14, quotients up to 2^32-1 with the quotient sum forced to 2^32-1 / 2^32 / 2^32+1 and max*n straddling u32::MAX) compared with an independent u128 count; frame headers over the whole 31-bit frame-number and 36-bit start-sample ranges (boundary-dense); hand-written frame headers with every (also non-canonical) coding of block size and sample rate, parsed and re-counted; every small component is first written into a user sink that fails half-way, then counted (scratch buffers must not leak); \
+         directly constructed residuals (partition order 0..=14, parameters 0..=14, quotients up to 2^32-1 with the quotient sum forced to 2^32-1 / 2^32 / 2^32+1 and max*n straddling u32::MAX) compared with an independent u128 count; frame headers over the whole 31-bit frame-number and 36-bit start-sample ranges (boundary-dense); hand-written frame headers with every (also non-canonical) coding of block size and sample rate, parsed and re-counted; whole valid frames written by the harness' own writer with features this library never emits (wasted bits, RICE2 with 5-bit parameters, escape-coded partitions, variable blocking; each frame first decoded by the reference reader), parsed by the library and, where the parser accepts them, re-counted (frame, header, subframes, residuals, precomputed); every small component is first written into a user sink that fails half-way, then counted (scratch buffers must not leak); \
          non-trivial = component containing a residual or a multi-byte coded number",
     );
     let per = ctx.tier.scale(2000, 6);
@@ -474,6 +561,7 @@ pub fn run(ctx: &Ctx) {
         )
             .prop_map(|(block, bs_form, rate, sr_form, ch_code, ss_code, number, variable)| NcCase { block, bs_form, rate, sr_form, ch_code, ss_code, number: if variable { number } else { number & ((1u64 << 31) - 1) }, variable })
     }, check_noncanonical);
+    ctx.search("foreign-frames", 16, per * 2, &foreign_strategy, check_foreign);
     ctx.search("header", 16, per * 10, &|| {
         let number = prop_oneof![
             3 => (0u32..=36, -3i64..=3).prop_map(|(b, d)| ((1i128 << b) + d as i128).clamp(0, (1i128 << 36) - 1) as u64),
@@ -488,6 +576,7 @@ pub fn run(ctx: &Ctx) {
 pub fn replay(path: &str) -> Result<Outcome, String> {
     let (kind, case) = crate::core::replay_kind(path)?;
     match kind.as_str() {
+        "foreign-frames" => Ok(check_foreign(&serde_json::from_value(case).map_err(|e| e.to_string())?)),
         "residual" => Ok(check_residual(&serde_json::from_value(case).map_err(|e| e.to_string())?)),
         "header" => Ok(check_header(&serde_json::from_value(case).map_err(|e| e.to_string())?)),
         "parsed-header-codings" => Ok(check_noncanonical(&serde_json::from_value(case).map_err(|e| e.to_string())?)),
